@@ -730,6 +730,14 @@ def r07_10(ctx, g):
     # overlap round trip
     ov_read = [st for st in walk_own(rg.node) if isinstance(st, ast.Assign) and isinstance(st.targets[0], ast.Subscript) and const_value(st.targets[0].slice) == 4 and norm(st.value).startswith("int(")]
     ok_r = len(ov_read) == 1 and norm(ov_read[0].value) == f"int({norm(ov_read[0].targets[0])}[:-1])"
+    if len(ov_read) == 1 and not ok_r and isinstance(ov_read[0].value, ast.Call) and ov_read[0].value.args and isinstance(ov_read[0].value.args[0], ast.Name):
+        # the text before the letter held in a local first: overlap = e[4][:-1]; e[4] = int(overlap)
+        tmp_ = ov_read[0].value.args[0].id
+        ds_ = [st for st in walk_own(rg.node) if isinstance(st, ast.Assign) and len(st.targets) == 1 and norm(st.targets[0]) == tmp_]
+        if len(ds_) == 1 and norm(ds_[0].value) == f"{norm(ov_read[0].targets[0])}[:-1]":
+            ok_r = True
+        elif len(ds_) != 1:
+            raise AnalysisError("R07.10", rg.where(ov_read[0]), f"the overlap is converted from `{tmp_}`, which is bound {len(ds_)} times")
     if not ov_read:
         # the overlap kept in a variable of its own: overlap = int(<columns>[4][:-1]) (0-based column 5 of the L line)
         import re as _re
